@@ -18,6 +18,7 @@ import (
 	"context"
 	"errors"
 	"fmt"
+	"runtime"
 	"sort"
 	"strings"
 	"sync"
@@ -76,6 +77,7 @@ type c12call struct {
 	rel         capnp.ReleaseFunc
 	rt          *iret
 	sendPanic   bool
+	afterDone   bool   // the pipelined call is issued as soon as the parent's answer resolves (Done() fires)
 	relArgs     func() // selfarg mode: what ReleaseArgs of a Recv-style call does
 
 	// outcome
@@ -453,6 +455,13 @@ func (c *c12) issuePipe(cl *c12call) {
 			cl.tRet = t
 			cl.mu.Unlock()
 		}()
+		if cl.afterDone {
+			<-pans.Done()
+			t := cc.log.tick()
+			cl.mu.Lock()
+			cl.tCall = t // issued now, after every call the caller made on this answer before
+			cl.mu.Unlock()
+		}
 		if cl.Kind == "precv" {
 			pans.PipelineRecv(cl.ctx, pathXform(cl.Path), rv)
 			return
@@ -494,6 +503,10 @@ func runC12(rec *common.Recorder, idx uint64, seed uint64, selfpipe bool) bool {
 }
 
 func runC12Mode(rec *common.Recorder, idx uint64, seed uint64, selfpipe, selfarg bool) bool {
+	return runC12Full(rec, idx, seed, selfpipe, selfarg, false)
+}
+
+func runC12Full(rec *common.Recorder, idx uint64, seed uint64, selfpipe, selfarg, chain bool) bool {
 	rng := common.NewRNG(seed)
 	cc := newCase(rec, idx)
 	c := &c12{cc: cc, rng: rng, behs: map[uint64]*c12call{}, counts: map[string]int64{}, callerOf: map[int]*c12call{}, selfpipe: selfpipe}
@@ -517,7 +530,9 @@ func runC12Mode(rec *common.Recorder, idx uint64, seed uint64, selfpipe, selfarg
 	}
 	setPolicy(rng.Uint64()|1, srvSites)
 	ok := true
-	if selfarg {
+	if chain {
+		ok = c.runChainOrder(rec, idx)
+	} else if selfarg {
 		ok = c.runSelfArg(rec, idx)
 	} else if selfpipe {
 		ok = c.runSelfPipe(rec, idx)
@@ -532,6 +547,9 @@ func runC12Mode(rec *common.Recorder, idx uint64, seed uint64, selfpipe, selfarg
 	}
 	if selfarg {
 		pre = "c12arg_"
+	}
+	if chain {
+		pre = "c12chain_"
 	}
 	for k, v := range c.counts {
 		rec.Count(pre+k, v)
@@ -642,9 +660,14 @@ func (c *c12) runScript(rec *common.Recorder, idx uint64) bool {
 			if p.parent != nil {
 				c.counts["pipe_chained"]++
 			}
+			if rng.Chance(1, 5) {
+				// same caller stream: issue it the moment the answer resolves
+				cl.afterDone = true
+				c.counts["followup_on_resolved_answer"]++
+			}
 			c.issuePipe(cl)
 			// wait for the PipelineSend only when it cannot be stuck behind a full queue
-			cl.safeWait = pipesOn[root.UID] <= c.S.queue && pipesOn[root.UID] <= c.T.queue
+			cl.safeWait = !cl.afterDone && pipesOn[root.UID] <= c.S.queue && pipesOn[root.UID] <= c.T.queue
 			if cl.safeWait && rng.Chance(1, 2) {
 				c.logOp("waitpipe %d", cl.UID)
 				if !c.waitSend(cl) {
@@ -1265,4 +1288,135 @@ func (c *c12) runSelfArg(rec *common.Recorder, idx uint64) bool {
 	}
 	c.counts["selfarg_scenarios"]++
 	return true
+}
+
+// ---- chainorder mode -----------------------------------------------------------------
+
+// runChainOrder: second-level pipelining with a stalled drain.  A (on S) acks
+// and stays unreturned; B is pipelined on A's result (-> T); X is pipelined
+// on A's result too and is slow to take delivery (late Ack, gated); C (and
+// C2) are pipelined on B's not yet existing result (-> H).  Queue order: B,
+// X, C.  Then A returns.  The caller watches B's answer: the moment it
+// resolves it issues D on the same path of B's answer - the same caller
+// stream as C, so D must reach B's result capability after C.  In a correct
+// implementation B cannot resolve while X stalls the drain (returns are
+// forwarded after the whole queue was delivered); the script then opens X's
+// gate, waits for B and issues D.  The generic order monitor of check()
+// (calls on one (answer, path) made one after the other must be delivered in
+// that order) decides.
+func (c *c12) runChainOrder(rec *common.Recorder, idx uint64) bool {
+	cc, rng := c.cc, c.rng
+	variant := int(idx % 4)
+	c.S.queue = 8
+	c.S.srv = server.New([]server.Method{{Method: c12Method, Impl: c.body(c.S)}}, 0, userShutdown{c, c.S},
+		&server.Policy{MaxConcurrentCalls: c.S.max, AnswerQueueSize: 8})
+	rec.Case(idx, fmt.Sprintf("c12 chainorder variant=%d S.max=%d T(max=%d,q=%d)", variant, c.S.max, c.T.max, c.T.queue))
+	kindOf := func(recvStyle bool) string {
+		if recvStyle {
+			return "precv"
+		}
+		return "psend"
+	}
+	issueWait := func(cl *c12call) bool {
+		if cl.parent == nil {
+			c.issueDirect(cl)
+		} else {
+			c.issuePipe(cl)
+		}
+		if !cc.await(cl.op.name, cl.op.isDone) {
+			return false
+		}
+		cl.waited = true
+		return true
+	}
+	// A
+	ba := c.newBeh(rng, false)
+	ba.Ack, ba.Ret, ba.CapsS = ackNow, retGate, [2]int{objT, objT}
+	A := &c12call{Kind: "send", Srv: objS, Caller: 0, B: ba}
+	if !issueWait(A) {
+		return false
+	}
+	// B -> T, returns at once, result.ptr0/ptr1 = H
+	bb := c.newBeh(rng, true)
+	bb.Ack, bb.Ret, bb.CapsT = ackNow, retEarly, [2]int{objH, objH}
+	B := &c12call{Kind: "psend", parent: A, Path: 0, B: bb, Caller: -1}
+	if !issueWait(B) {
+		return false
+	}
+	// X -> T, slow to take delivery
+	bx := c.newBeh(rng, true)
+	bx.Ack, bx.Ret = ackLate, retEarly
+	X := &c12call{Kind: kindOf(variant == 2), parent: A, Path: 1, B: bx, Caller: -1}
+	if !issueWait(X) {
+		return false
+	}
+	// C (C2) pipelined on B's future result
+	var cs []*c12call
+	nC := 1
+	if variant == 1 || variant == 3 {
+		nC = 2
+	}
+	for i := 0; i < nC; i++ {
+		bc := c.newBeh(rng, true)
+		C := &c12call{Kind: kindOf(variant == 2 && i == 0), parent: B, Path: 0, B: bc, Caller: -1}
+		if !issueWait(C) {
+			return false
+		}
+		cs = append(cs, C)
+	}
+	var by *beh
+	if variant == 3 { // one more slow entry behind the Cs
+		by = c.newBeh(rng, true)
+		by.Ack, by.Ret = ackLate, retEarly
+		Y := &c12call{Kind: "psend", parent: A, Path: 0, B: by, Caller: -1}
+		if !issueWait(Y) {
+			return false
+		}
+	}
+	c.counts["pipe_chained"] += int64(nC)
+	// let A return: the drain delivers B, then stalls at X
+	c.logOp("openR %d", A.UID)
+	ba.gateR.open()
+	bDone := func() bool {
+		select {
+		case <-B.ans.Done():
+			return true
+		default:
+			return false
+		}
+	}
+	xStarted := func() bool { return len(deliveriesOf(cc.log.snapshot(), X.UID)) > 0 }
+	if !cc.await("B's answer to resolve or the drain to reach X", func() bool { return bDone() || xStarted() }) {
+		return false
+	}
+	for i := 0; i < 300 && !bDone(); i++ { // a premature return of B would arrive about now (never decides a verdict)
+		runtime.Gosched()
+		time.Sleep(50 * time.Microsecond)
+	}
+	D := &c12call{Kind: kindOf(variant == 1), parent: B, Path: 0, B: c.newBeh(rng, true), Caller: -1}
+	early := bDone()
+	if early {
+		// B resolved although entries queued behind it are still undelivered:
+		// the caller goes on using B's answer, as any caller would
+		c.counts["answer_resolved_while_queue_draining"]++
+		c.logOp("B resolved while the drain is stalled: issue D now")
+		if !issueWait(D) {
+			return false
+		}
+	}
+	c.logOp("openA %d", X.UID)
+	bx.gateA.open()
+	if by != nil {
+		by.gateA.open()
+	}
+	if !early {
+		if !cc.await("B's answer to resolve", bDone) {
+			return false
+		}
+		if !issueWait(D) {
+			return false
+		}
+	}
+	c.counts["chain_scenarios"]++
+	return c.finishCase(rng)
 }
